@@ -18,6 +18,10 @@ def save_package():
     return pkg
 
 
+# names of earlier runs, all different from the saved name "run-7" but close to it
+OTHER_NAMES = ["run-7.bak", "run-7.1", "x/run-7", "RUN-7", "run-7 ", "run-70", "run-", "2024-03-07T10:15:42.104233"]
+
+
 def _output(M, save, rows, cols, tag="o"):
     np_ = save.np
     data = np_.zeros((rows + 1, cols), np_.float64)
@@ -45,7 +49,8 @@ def sc_save_json(M, file_exists, rows=2, cols=2, atomic=True):
     fs = M.pkg.fs
     fs.files.clear(); fs.dirs.clear(); del fs.trace[:]; del fs.snapshots[:]
     present = M.bool("name_already_saved")
-    D = FSM.SymDict(lambda k: present)
+    D = FSM.SymDict(lambda k: present, other_keys=OTHER_NAMES)
+    D.name = "run-7"
     path = FSM.SpecPath(fs, "/results/data.json")
     fs.dirs.add("/results")
     old = None
@@ -58,7 +63,7 @@ def sc_save_json(M, file_exists, rows=2, cols=2, atomic=True):
     out = _output(M, save, rows, cols)
     save.save_json(path, "run-7", out)
     final = fs.files.get(path.p)
-    was_present = "run-7" in D.asked and bool(present) if file_exists else False
+    was_present = bool(present) if file_exists else False
     effects = [t for t in fs.trace if t[0] not in ("exists", "read_text", "open-read")]
     if was_present:
         M.check("existing_name.no_effects", len(effects) == 0 and final is old)
@@ -69,7 +74,8 @@ def sc_save_json(M, file_exists, rows=2, cols=2, atomic=True):
     newmap = final.obj if ok_doc else None
     if file_exists:
         M.check("new_name.is_old_mapping_plus_entry", newmap is D and set(D.added) == {"run-7"}
-                and not getattr(D, "overwritten", None) and not getattr(D, "deleted", None))
+                and not getattr(D, "overwritten", None) and not getattr(D, "deleted", None)
+                and set(D) == set(OTHER_NAMES) | {"run-7"})
         entry = D.added.get("run-7")
     else:
         M.check("new_name.is_singleton_mapping", isinstance(newmap, dict) and set(newmap) == {"run-7"})
@@ -100,12 +106,32 @@ def _native_save_crash(M, file_exists, rows, cols):
 
 
 @scenario
-def sc_output_roundtrip(M, rows=2, cols=2, nan=True):
+def sc_output_roundtrip(M, rows=2, cols=2, nan=True, three_d=False):
     """from_json(loads(dumps(out.json))) has equal data (dtype float64) and actions; NaN cells are carried through
     untouched; metadata equal up to json_serializer (run_type derived from func)."""
     save = M.mod("run.save")
     np_ = save.np
     out = _output(M, save, rows, cols)
+    if three_d:
+        # the best_states command writes a NaN-padded action array of shape (steps+1, eval_repetitions, steps)
+        a3 = np_.full((rows + 1, 2, rows), np_.nan)
+        for i in range(rows + 1):
+            for r in range(2):
+                for j in range(i if i <= rows else rows):
+                    a3[i, r, j] = M.real(f"b{i}_{r}_{j}")
+        out = save.Output(out.data, a3, out.parsed_args)
+        doc3 = out.json
+        back3 = save.Output.from_json(_deep(doc3))
+        M.check("actions3d.shape", tuple(back3.actions.shape) == (rows + 1, 2, rows))
+        if tuple(back3.actions.shape) == (rows + 1, 2, rows):
+            for i in range(rows + 1):
+                for r in range(2):
+                    for j in range(rows):
+                        if j < i:
+                            M.check(f"actions3d[{i},{r},{j}]", M.val(back3.actions[i, r, j]) == M.val(a3[i, r, j]))
+                        else:
+                            M.check(f"actions3d.nan[{i},{r},{j}]", M.is_nan(back3.actions[i, r, j]))
+        return
     if nan:
         out.actions[0, 0] = np_.nan
     doc = out.json
